@@ -7,7 +7,9 @@
    re   <pattern> <text>    -> unsupported | m=<0|1> n=<count> safe=<0|1>
    clean/base/dir <hex>, join <hex> <hex>  -> <hex>
 
-   keys: coe ree uniq upd (0/1), work hdir helper file (hex), env (hex K=V items, comma
+   batch <k=v>... jobs=<work>|<env>|<file>;...  -> verdicts=... racy=.. unmod=.. (runT_seq: one RunT call, subtests in sequence)
+   keys: coe ree uniq upd dl cancelled (0/1; dl = the deadline of the run is reached while the
+   script is blocked on a sleeping helper, cancelled = the context is done from the start), work hdir helper file (hex), env (hex K=V items, comma
    separated), hc (<hexname>:0|1,...), cc (none | <dflt>[,<hexname>:<t|f|e>]...),
    cmds (<hexname>:p|f|n,...), main (<hex>,...), watch (<hex>,...).  "-" = empty. *)
 let split_on c s = if s = "-" || s = "" then [] else String.split_on_char c s
@@ -44,7 +46,8 @@ let config_of kv : config =
     c_main_cmds = List.map bytes_of_hex (split_on ',' (get kv "main" "-"));
     c_helper = bytes_of_hex (get kv "helper" "-");
     c_helper_dir = bytes_of_hex (get kv "hdir" "-");
-    c_watch = List.map bytes_of_hex (split_on ',' (get kv "watch" "-")) }
+    c_watch = List.map bytes_of_hex (split_on ',' (get kv "watch" "-"));
+    c_deadline = flag kv "dl"; c_cancelled = flag kv "cancelled" }
 
 let env_of kv = List.filter_map (fun h -> split_eq_bytes (bytes_of_hex h)) (split_on ',' (get kv "env" "-"))
 
@@ -117,6 +120,19 @@ let do_cli kv =
 let () = serve (function
   | "run" :: r -> do_run (kv_of_tokens r)
   | "cli" :: r -> do_cli (kv_of_tokens r)
+  | "batch" :: r ->
+      (* jobs=<work>|<env item>,<env item>...|<file>;...  (every script has its own environment) *)
+      let kv = kv_of_tokens r in
+      let cfg = config_of kv in
+      let jobs = List.map (fun it -> match String.split_on_char '|' it with
+          | [w; e; f] ->
+              { j_work = bytes_of_hex w;
+                j_env = List.filter_map (fun h -> split_eq_bytes (bytes_of_hex h)) (split_on ',' e);
+                j_file = bytes_of_hex f }
+          | _ -> failwith "bad job") (split_on ';' (get kv "jobs" "-")) in
+      let finals = List.map (fun j -> (run_file cfg j.j_work j.j_env j.j_file).r_final) jobs in
+      Printf.sprintf "verdicts=%s racy=%s unmod=%s" (String.concat "," (List.map show_verdict (runT_seq cfg jobs)))
+        (b01 (List.exists (fun s -> s.s_racy) finals)) (b01 (List.exists (fun s -> s.s_unmodelled) finals))
   | "covered" :: r ->
       let kv = kv_of_tokens r in
       b01 (rerun_covered (config_of kv) (bytes_of_hex (get kv "work" "-")) (env_of kv)
